@@ -1,4 +1,5 @@
-import PV.C20.Lemmas.ModelDriver
+import PV.C20.Spec
+import PV.C20.Lemmas.Basic
 /-! C20 helper lemmas — reference driver: lengths decrease, fuel is irrelevant, fuel-free equation for `formatter_parser`. -/
 namespace PV.C20
 open Spec
